@@ -31,6 +31,8 @@ pub mod ctl {
         pub ops: usize,
         pub mutating: usize,
         pub metas: usize,
+        /// piece evaluation has begun (set by `trace::solve_begin`)
+        pub solving: bool,
     }
 
     pub static STATE: Mutex<Option<State>> = Mutex::new(None);
@@ -40,7 +42,7 @@ pub mod ctl {
     }
 
     pub fn install(config: Config) {
-        *STATE.lock().unwrap_or_else(|e| e.into_inner()) = Some(State { config, log: Vec::new(), ops: 0, mutating: 0, metas: 0 });
+        *STATE.lock().unwrap_or_else(|e| e.into_inner()) = Some(State { config, log: Vec::new(), ops: 0, mutating: 0, metas: 0, solving: false });
     }
 
     /// removes the controller and returns its log
@@ -89,6 +91,15 @@ pub mod fs {
 
     /// the injected error; its kind varies with the operation index so that code which treats some kinds specially
     /// (retries, "not found" shortcuts) is exercised too — never `Interrupted` (std retries it) nor `NotFound`
+    fn injected_during(index: usize, solving: bool) -> io::Error {
+        // once pieces are being evaluated a vanished file is just one more failure (`NotFound`); before that the resize
+        // pre-flight gives `NotFound` a meaning of its own ("no image yet"), so it is not injected there
+        if solving && index % 5 == 4 {
+            return io::Error::new(io::ErrorKind::NotFound, "injected fault");
+        }
+        injected(index)
+    }
+
     fn injected(index: usize) -> io::Error {
         let kind = match index % 4 {
             0 => io::ErrorKind::Other,
@@ -156,7 +167,7 @@ pub mod fs {
 
         if state.config.faults.contains(&index) {
             state.log.push(format!("{} err", head));
-            return Err(injected(index));
+            return Err(injected_during(index, state.solving));
         }
 
         if let Some((partial_index, partial_bytes)) = state.config.partial {
@@ -167,7 +178,7 @@ pub mod fs {
                 } else {
                     state.log.push(format!("{} err", head));
                 }
-                return Err(injected(index));
+                return Err(injected_during(index, state.solving));
             }
         }
 
@@ -381,6 +392,9 @@ pub mod trace {
     }
 
     pub fn solve_begin(piece: &OrchestrationPiece) {
+        if let Some(state) = ctl::STATE.lock().unwrap_or_else(|e| e.into_inner()).as_mut() {
+            state.solving = true;
+        }
         let mut line = format!("solve {} begin {} {}", ctl::worker(), ctl::hex(&piece.hash), piece.files.len());
         for file in &piece.files {
             line.push_str(&format!(" {} {} {}", file.metadata.id, file.read_start_position, file.read_length));
